@@ -147,6 +147,34 @@ def run_unit(unit, tier):
     labs_by_fn = {}
     for rec in groups.values():
         labs_by_fn.setdefault(rec['fn'], set()).update(rec['labels'])
+    # labelled preconditions of template-level stand-ins (e.g. `requires ... // [C08.wait.registered-before-check]`) are obligations of every
+    # extracted function that calls the stand-in: the verifier checks the precondition at each call site
+    gl = g['text'].split('\n')
+    tmpl_pre = []      # (stand-in name, labels, clause text, line)
+    cur_fn = None
+    for i, ln in enumerate(gl):
+        o = g['origin'][i] if i < len(g['origin']) else {}
+        if o.get('kind') != 'tmpl':
+            continue
+        m = re.search(r'\bfn\s+([A-Za-z_][A-Za-z0-9_]*)\s*[<(]', ln)
+        if m:
+            cur_fn = m.group(1)
+        found = LABEL.findall(ln)
+        if found and cur_fn and not re.match(r'\s*(pub\s+)?(open\s+|closed\s+)?(spec|proof)\s+fn', ln):
+            tmpl_pre.append((cur_fn, found, ln.strip()[:600], i + 1))
+    callee_clauses = []
+    if tmpl_pre:
+        by_fn_lines = {}
+        for i, o in enumerate(g['origin']):
+            if o.get('kind') == 'src' and o.get('fn'):
+                by_fn_lines.setdefault(o['fn'], []).append(gl[i] if i < len(gl) else '')
+        for fnm, lns in by_fn_lines.items():
+            body = '\n'.join(lns)
+            for (sname, labs_, text_, line_) in tmpl_pre:
+                if re.search(r'\b%s\s*(::<[^>]*>)?\s*\(' % re.escape(sname), body):
+                    labs_by_fn.setdefault(fnm, set()).update(labs_)
+                    callee_clauses.append(dict(fn=fnm, kind='spec', labels=list(labs_), first=line_, last=line_,
+                                               text='precondition of %s at its call site(s) in %s: %s' % (sname, fnm, text_)))
     for f in g['functions']:
         fnames.add(f['name'])
         labs = sorted(labs_by_fn.get(f['name'], set()))
@@ -164,6 +192,7 @@ def run_unit(unit, tier):
             continue
         seen.add(key)
         out['clauses'].append(rec)
+    out['clauses'] += callee_clauses
     # solver stats per function
     bd = {}
     for b in res.get('breakdown', []):
